@@ -115,7 +115,7 @@ def _glr(real, parser, w):
     try:
         with real.guard(10), real.quiet():
             f = parser.parse(w)
-            n = len(f)
+            n = real.flen(f)
             return [tag(parser.call_actions(f[i])) for i in range(min(n, 6))]
     except Exception:  # noqa: BLE001
         return []
